@@ -66,7 +66,7 @@ def gen_step(rng, n, tier, op=None, data=None):
         s.update(pos=pos, v=rng.choice([0, 1, True, False, 5]))
     elif op == 'byteswap':
         a, b = ropt_range(rng, n)
-        s.update(fmt=rng.choice([None, 0, 1, 2, 3, -1, [1, 2], [2, 1, 1], [0, 1], [], 'h', '2h', '<hb', 'q', '>2bh']), start=a, end=b, repeat=rng.random() < 0.6)
+        s.update(fmt=rng.choice([None, 0, 1, 2, 3, -1, [1, 2], [2, 1, 1], [0, 1], [], 'h', '2h', '<hb', 'q', '>2bh', {'iter': [2, 1]}, {'iter': [1]}, {'iter': [2, 2]}]), start=a, end=b, repeat=rng.random() < 0.6)
     elif op in ('ilshift', 'irshift'):
         s.update(n=rng.choice([-1, 0, 1, 3, n - 1, n, n + 1, 2 * n + 5]))
     elif op == 'imul':
@@ -128,6 +128,7 @@ def mkkey(key):
 
 BS_SIZES = {'h': [2], '2h': [2, 2], '<hb': [2, 1], 'q': [8], '>2bh': [1, 1, 2]}
 def fmt_sizes(fmt, width_bits):
+    if isinstance(fmt, dict): return list(fmt['iter'])          # a one-shot iterator of byte sizes
     if fmt is None or fmt == 0: return [width_bits // 8]
     if isinstance(fmt, int): return [fmt]
     if isinstance(fmt, str): return BS_SIZES[fmt]
@@ -156,7 +157,7 @@ def apply_impl(s, st):
         p = st['pos']
         if isinstance(p, dict): p = p['list'] if 'list' in p else range(*p['range'])
         return s.set(st['v'], p) if op == 'set' else s.invert(p)
-    if op == 'byteswap': return s.byteswap(st['fmt'], st['start'], st['end'], st['repeat'])
+    if op == 'byteswap': return s.byteswap(iter(st['fmt']['iter']) if isinstance(st['fmt'], dict) else st['fmt'], st['start'], st['end'], st['repeat'])
     if op == 'ilshift': s <<= st['n']; return None
     if op == 'irshift': s >>= st['n']; return None
     if op == 'imul': s *= st['n']; return None
